@@ -474,6 +474,9 @@ func runResumeReport(c *Ctx) {
 	}
 	below := &PassSpec{Vias: []Via{{Cond: func(f *FuncInfo, e ast.Expr) (string, bool, bool) {
 		be, ok := ast.Unparen(e).(*ast.BinaryExpr)
+		if ok && be.Op == token.GTR { // F > i  ==  i < F
+			be = &ast.BinaryExpr{X: be.Y, Op: token.LSS, Y: be.X}
+		}
 		if !ok || be.Op != token.LSS {
 			return "", false, false
 		}
